@@ -2316,7 +2316,7 @@ class AnsiStr(str):
         '''
         if not isinstance(value, AnsiStr):
             return False
-        return str(self) == str(value)
+        return self._s == value._s
 
     def __ne__(self, value) -> bool:
         ''' != operator - the opposite of == (str.__ne__ would compare the raw string values instead) '''
